@@ -21,31 +21,33 @@ Proof. exact scan_config_legacy_refuted. Qed.
 Print Assumptions C03_scan_config_legacy_refuted.
 
 (** [has_template_conflicts] (run on every lint result, outside catch_unwind) returns under the
-    stage invariant: positioned anchor, non-empty raw slices, no [CreateAfter] at templated offset 0
-    when subtraction is checked, and a [templated_slice_to_source_slice] that does not panic (C15). *)
+    stage invariant: positioned anchor, non-empty raw slices, and a
+    [templated_slice_to_source_slice] that does not panic (C15) — in either build profile. *)
 Theorem C03_has_template_conflicts_total : forall wrapping tsts raw f,
-  tsts_ok tsts -> fix_inv wrapping raw f -> ok (has_template_conflicts false wrapping tsts raw f).
+  tsts_ok tsts -> fix_inv raw f -> ok (has_template_conflicts false wrapping tsts raw f).
 Proof. exact has_template_conflicts_total. Qed.
 Print Assumptions C03_has_template_conflicts_total.
 
 Theorem C03_any_conflict_total : forall wrapping tsts raw fs,
-  tsts_ok tsts -> Forall (fix_inv wrapping raw) fs -> ok (any_conflict false wrapping tsts raw fs).
+  tsts_ok tsts -> Forall (fix_inv raw) fs -> ok (any_conflict false wrapping tsts raw fs).
 Proof. exact any_conflict_total. Qed.
 Print Assumptions C03_any_conflict_total.
 
 (** Before the repair the same invariant did not suffice: a replacement by nothing (CV07 on "()")
     indexed an empty vector. *)
 Theorem C03_fix_slices_legacy_refuted :
-  exists tsts raw f, tsts_ok tsts /\ fix_inv true raw f /\
+  exists tsts raw f, tsts_ok tsts /\ fix_inv raw f /\
     has_template_conflicts true true tsts raw f = Crash site_source_edit_index.
 Proof. exact fix_slices_legacy_refuted. Qed.
 Print Assumptions C03_fix_slices_legacy_refuted.
 
-(** The guards of the invariant are necessary (sites that remain in the code). *)
-Theorem C03_create_after_zero_checked_crashes :
-  has_template_conflicts false false id_tsts lit_file create_after_zero = Crash site_create_after_underflow.
-Proof. exact create_after_zero_checked_crashes. Qed.
-Print Assumptions C03_create_after_zero_checked_crashes.
+(** ... and a [CreateAfter] whose anchor ends at templated offset 0 underflowed in builds with
+    overflow checks (repaired by 133dede). *)
+Theorem C03_create_after_zero_legacy_refuted :
+  tsts_ok id_tsts /\ fix_inv lit_file create_after_zero /\
+  has_template_conflicts true false id_tsts lit_file create_after_zero = Crash site_create_after_underflow.
+Proof. exact create_after_zero_legacy_refuted. Qed.
+Print Assumptions C03_create_after_zero_legacy_refuted.
 
 (** [compute_anchor_edit_info] (run on every fix batch before [apply_fixes]) returns when no fix of
     the batch is a "just source edit"; otherwise it can reach [unimplemented!()]. *)
